@@ -246,6 +246,27 @@ def tokenizeSpec (modes : List ScanMode) (w : List Nat) : Option (List ScanTok) 
     (lowered, hence bounded by U+10FFFF) class. The specification does not do this. -/
 def scnr2Text (w : List Nat) : List Nat := w.map fun c => if c = 0x10FFFF then 0x110000 else c
 
+mutual
+/-- scnr2 0.5.2 as observed (finding F22): while building the NFA of an alternation, an alternative
+    that is added to a still-empty NFA REPLACES it, so empty alternatives at the head of an
+    alternation are dropped: `(|a)` behaves as `a`. (`(a|)` is handled correctly.) Only the faithful
+    model of the scanner applies this; the specification does not. -/
+def scnr2Re : Re → Re
+  | .alt a b => if a = .eps then scnr2Re b else .alt (scnr2Re a) (scnr2ReTail b)
+  | .cat a b => .cat (scnr2Re a) (scnr2Re b)
+  | .star a => .star (scnr2Re a)
+  | r => r
+/-- the alternatives after the first one (right spine of the lowered alternation) -/
+def scnr2ReTail : Re → Re
+  | .alt a b => .alt (scnr2Re a) (scnr2ReTail b)
+  | r => scnr2Re r
+end
+
+def scnr2Term (t : ScanTerm) : ScanTerm :=
+  { t with re := scnr2Re t.re, la := t.la.map fun p => (p.1, scnr2Re p.2) }
+
+def scnr2Modes (ms : List ScanMode) : List ScanMode := ms.map fun m => { m with terms := m.terms.map scnr2Term }
+
 /-! ### UTF-8 byte offsets (the implementation reports byte offsets) -/
 
 def utf8Len (c : Nat) : Nat :=
